@@ -394,8 +394,15 @@ def other(ctx, p, cfg):
                 act = UserSwapPredecessors(tr, (u, v))
         elif kind == "UserDeleteNode":
             n = pick_node(ctx, p, "n")
-            ctx.input("args", dict(n=n))
-            act = UserDeleteNode(tr, n)
+            # the caller may supply the node's pixels (documented: "if known") or let the action compute them
+            give = ctx.choose(2, "give_pixels") == 1
+            ctx.input("args", dict(n=n, give_pixels=give))
+            px = None
+            if give:
+                if not ctx.decide(p.sh0.al[n - 1]):
+                    raise PathAbort()
+                px = tr.get_pixels(n)
+            act = UserDeleteNode(tr, n, pixels=px)
         elif kind == "UserAddNode":
             # node addition on tracks with segmentation carries non-empty pixels on background
             n = p.ids[p.N]
@@ -448,6 +455,9 @@ def _harness(ctx, cfg):
     raw_n0 = [dict(d) for d in p.g.nattr]
     raw_e0 = {e: dict(d) for e, d in p.g.eattr.items()}
     S0 = Snap(p, k)
+    if p.N >= 3:
+        # reachability twin on the PRE-state (also counted on paths that end in a refusal)
+        ctx.witness("division", Or([S0.sh.outdeg[i] == 2 for i in range(p.N)]))
     if kind == "paint":
         act, exc, info = paint(ctx, p, cfg)
     else:
@@ -554,8 +564,7 @@ def _harness(ctx, cfg):
                     created is None and emitted1[0] == (None,))
         ctx.oblige("C20.payload", payload_ok, "C20")
     ctx.witness("state_changed", Not(And(S.same_graph(S0, S1), S.same_attrs(S0, S1), seg_same(p.seg0, seg1))))
-    if p.N >= 3:
-        ctx.witness("division", Or([S0.sh.outdeg[i] == 2 for i in range(p.N)]))
+
 
     if want("C01") or want("C07") or want("C08") or want("C09") or want("C20") or want("C06"):
         del p.emitted[:]
